@@ -90,10 +90,17 @@ def run_suite(res, prop, tier, seed, n_quick, n_thorough, n_req=1, force=None, o
                 sig = None
                 if isinstance(why, tuple):
                     why, sig = why
-                if why and sig is not None:
-                    # a failure that a listed finding may explain: only if the implementation does exactly what the model of
-                    # this backend does (otherwise it is something else and is reported as such)
-                    if proj(C.run_driver([cmd])[0]) != proj(out):
+                if why:
+                    m_out = C.run_driver([cmd])[0]
+                    if (' TIE ' in m_out or m_out.endswith(' TIE')) and sc.get('delay') != 0:
+                        # a deadline comparison with now == deadline exactly somewhere in this scenario: the code compares floats
+                        # there, the plan's "in time" is not decidable - the scenario is dropped from the correspondence and
+                        # from the oracle alike
+                        res.notes['oracle_skipped_deadline_ties'] = res.notes.get('oracle_skipped_deadline_ties', 0) + 1
+                        why = None
+                    elif sig is not None and proj(m_out) != proj(out):
+                        # a failure that a listed finding may explain: only if the implementation does exactly what the model
+                        # of this backend does (otherwise it is something else and is reported as such)
                         sig = None
                 if why:
                     res.violation(f'{prop} oracle: {why}', {'property': prop, 'input': desc, 'request': f'{rq.op}:{rq.label}',
